@@ -398,3 +398,47 @@ Qed.
 Theorem law_default_valid_sound j v0 v1 :
   law_default_valid j v0 v1 = true -> v0 = true -> request_in_range j = true -> v1 = true.
 Proof. unfold law_default_valid. intros H -> R. rewrite R in H. exact H. Qed.
+
+(* ---------- law 107 and the finding it isolates ---------- *)
+Definition claimname_step_ok (O : oracles) (o n : volume) : Prop :=
+  forall a b, v_claim o = Some a -> v_claim n = Some b ->
+    v_cname n = v_cname o \/ (v_cname o = 0 /\ o_pv O (v_cname n) = true).
+
+Lemma vols_fill_ok_sound O : forall os ns, length os = length ns -> vols_fill_ok O os ns = true ->
+  Forall2 (claimname_step_ok O) os ns.
+Proof.
+  induction os as [|o r IH]; intros [|n nr] L H; simpl in *; try discriminate; constructor.
+  - apply andb_true_iff in H. destruct H as [H _]. unfold vol_fill_ok in H. intros a b Ea Eb.
+    rewrite Ea, Eb in H. apply orb_true_iff in H. destruct H as [H|H].
+    + left. now apply Z.eqb_eq.
+    + right. apply andb_true_iff in H. destruct H as [H1 H2]. apply Z.eqb_eq in H1. auto.
+  - apply andb_true_iff in H. destruct H as [_ H]. apply IH; auto.
+Qed.
+
+Theorem law_update_claimname_sound O old new :
+  law_update_claimname O old new true = true -> length (j_volumes old) = length (j_volumes new) ->
+  Forall2 (claimname_step_ok O) (j_volumes old) (j_volumes new).
+Proof. unfold law_update_claimname. simpl. intros H L. now apply vols_fill_ok_sound. Qed.
+
+(* The webhook does NOT guarantee it (validateJobUpdate blanks the claim name of every volume
+   with an inline claim on both sides before comparing and never runs validateIO): an admitted
+   CREATE followed by an admitted UPDATE stores a claim name that CREATE's validator rejects; the
+   update changed a field other than replicas / minAvailable / priority class, the strong volume
+   clause fails and law 107 answers false, while update_spec, job_inv and laws 104 / 106 hold. *)
+Definition cn_oracles := mkOracles (fun _ _ => true) (fun _ _ _ => true) (fun _ => true) (fun c => negb (c =? 10)).
+Definition cn_job (v : volume) : job :=
+  mkJob 7 [mkTask 4 1 (Some 1) (mkTmpl 1 false 0) [] 3 None None] 1 [] [v] None 2 1 3 0 0 0 false.
+Theorem update_only_three_fields_refuted :
+  exists O qs old new,
+    validate_create O qs old = true /\ validate_update old new = true /\ j_name new = j_name old /\
+    j_volumes new <> j_volumes old /\
+    (exists v, In v (j_volumes new) /\ v_cname v <> 0 /\ o_pv O (v_cname v) = false) /\
+    validate_create O qs new = false /\
+    law_update old new true = true /\ law_persist O new = true /\
+    law_update_claimname O old new true = false.
+Proof.
+  exists cn_oracles, [mkQueue 2 1 1 false], (cn_job (mkVol 1 0 (Some 1))), (cn_job (mkVol 1 10 (Some 1))).
+  repeat match goal with |- _ /\ _ => split end; try (vm_compute; reflexivity).
+  - vm_compute. discriminate.
+  - exists (mkVol 1 10 (Some 1)). split; [simpl; auto|]. split; [simpl; discriminate|reflexivity].
+Qed.
